@@ -185,6 +185,11 @@ func escInflux(s string, set string) string {
 func renderInflux(ms []*am) []byte {
 	var b bytes.Buffer
 	for _, m := range ms {
+		if m.Wire != "" {
+			b.WriteString(m.Wire)
+			b.WriteByte('\n')
+			continue
+		}
 		b.WriteString(escInflux(m.Name, ", "))
 		for _, t := range m.Tags {
 			b.WriteByte(',')
